@@ -33,6 +33,8 @@ const ZS: [(); 7] = [(); 7];
 const S: &str = "aé锈🧠-x";
 const WS: &str = " \t\u{c}aé \n";
 const BIG: usize = usize::MAX;
+/// `T3[x]` panics (index out of bounds) for x >= 3: a trap for closure calls std would not make
+const T3: [bool; 3] = [true, true, false];
 
 #[derive(Debug, PartialEq, Clone, Copy)]
 #[repr(C, packed)]
@@ -404,6 +406,18 @@ case("dsl", "Option<&'static u16>", "iter::eval!(&ARR, rfind(|x| **x < 35))")
 case("dsl", "Option<(u16, u8)>", "iter::eval!(&ARR, copied(), zip(1u8..), nth(3))")
 case("dsl", "u32", "iter::eval!(0u32..4, flat_map(|x| x..4), fold(0u32, |a, x| a * 3 + x))")
 case("dsl", "(bool, bool, usize)", "(iter::eval!(&ARR, all(|x| *x >= 10)), iter::eval!(&ARR, any(|x| *x == 35)), iter::eval!(&ARR, skip_while(|x| **x < 30), take_while(|x| **x < 50), count()))")
+# short-circuit / laziness: a closure is not called again once the adapter or consumer has made up
+# its mind, exactly as in std (T3 traps any call with an element >= 3: an out-of-bounds index)
+case("dsl", "Option<u8>", "iter::eval!(&[0u8, 1, 2, 9, 200], copied(), skip_while(|x| T3[*x as usize]), nth(1))")
+case("dsl", "u8", "iter::eval!(&[0u8, 1, 2, 9, 200], copied(), take_while(|x| T3[*x as usize]), fold(0u8, |a, x| a + x))")
+case("dsl", "bool", "iter::eval!(&[0u8, 1, 2, 9, 200], copied(), any(|x| !T3[x as usize]))")
+case("dsl", "bool", "iter::eval!(&[0u8, 1, 2, 9, 200], copied(), all(|x| T3[x as usize]))")
+case("dsl", "Option<u8>", "iter::eval!(&[0u8, 1, 2, 9, 200], copied(), find(|x| !T3[*x as usize]))")
+case("dsl", "Option<usize>", "iter::eval!(&[0u8, 1, 2, 9, 200], copied(), position(|x| !T3[x as usize]))")
+case("dsl", "Option<u8>", "iter::eval!(&[0u8, 1, 2, 9, 200], copied(), find_map(|x| if T3[x as usize] { None } else { Some(x + 1) }))")
+case("dsl", "[u8; 2]", "iter::collect_const!(u8 => &[0u8, 1, 2, 9, 200], copied(), skip_while(|x| T3[*x as usize]), skip(1))")
+case("dsl", "Option<u8>", "iter::eval!(&[200u8, 9, 2, 1, 0], copied(), rfind(|x| !T3[*x as usize]))")
+case("dsl", "Option<u8>", "iter::eval!(&[0u8, 1, 2, 9, 200], copied(), map(|x| x + T3[x as usize] as u8), next())")
 case("range", "[u8; 6]", "iter::collect_const!(u8 => 250..=255)")
 case("range", "[i8; 3]", "iter::collect_const!(i8 => -128..-125, rev())")
 case("range", "[char; 4]", "iter::collect_const!(char => '\\u{d7fe}'..='\\u{e001}')")
